@@ -556,6 +556,8 @@ def run_shard(ctx):
                     vsig="size|%s|%s" % (name, type(e).__name__))
     gone_cwd_cases(ctx, dschema)
     passthrough_cases(ctx)
+    if ctx.shard % 2 == 0:
+        big_type_churn(ctx)
     if pool:
         for i in range(N_VALIDATOR[ctx.tier] // ctx.nshards):
             do_validator(ctx, rng, os.path.join(ctx.tmp, "c07v"), pool)
@@ -702,6 +704,56 @@ def passthrough_cases(ctx, only=None):
                         % type(got).__name__, vsig="pass|timedelta")
 
 
+def big_type_churn(ctx, rounds=14):
+    """Schemas with a large section type (20-30 keys) are created, used for
+    one load and dropped in turn; two variants whose types have different
+    key names alternate, so that a later type object sits where an earlier
+    one sat.  Every text names only keys of its own schema: it loads, with
+    its own values."""
+    import gc
+    import ZConfig
+    res = ctx.res
+    for k in range(rounds):
+        for tag in ("a", "b"):
+            n = 20 + (k % 3) * 5
+            keys = ["%s%s%02d" % ("k", tag, i) for i in range(n)]
+            xml = ("<schema><sectiontype name='big'>%s</sectiontype>"
+                   "<multisection type='big' name='*' attribute='bigs'/>"
+                   "%s</schema>") % (
+                "".join("<key name='%s' datatype='integer' default='0'/>"
+                        % x for x in keys),
+                "".join("<key name='top%s' default='d'/>" % x
+                        for x in keys[:18]))
+            text = "<big one>\n%s</big>\ntop%s v\n" % (
+                "".join("  %s %d\n" % (x, i) for i, x in enumerate(keys)),
+                keys[3])
+            res.evaluations += 1
+            res.count("big_type_churn_loads")
+            try:
+                schema = ZConfig.loadSchemaFile(io.StringIO(xml))
+                cfg, _ = ZConfig.loadConfigFile(schema, io.StringIO(text))
+                got = [getattr(cfg.bigs[0], x) for x in keys]
+                ok = got == list(range(n)) and \
+                    getattr(cfg, "top" + keys[3]) == "v"
+                why = "values %r" % (got[:6],)
+            except Exception as e:  # noqa
+                ok = False
+                why = "%s: %s" % (type(e).__name__, str(e)[:120])
+            if not ok:
+                res.violate("internal-exception-escaped"
+                            if "Error" in why and "Configuration" not in why
+                            else "well-formed-text-refused",
+                            {"family": "big-type-churn", "round": k,
+                             "variant": tag},
+                            "loads with its own values", why,
+                            detail="round %d variant %s (schema objects "
+                            "created and dropped in turn): %s" % (k, tag, why),
+                            vsig="churn|%s" % why.split(":")[0])
+                return
+            del schema, cfg
+            gc.collect()
+
+
 def gone_cwd_entries(base):
     """(label, callable) pairs: loads that name everything absolutely, to
     be run in a process whose working directory has been removed (a
@@ -794,6 +846,8 @@ def replay(ctx, case):
         return gone_cwd_cases(ctx, None, only=case["entry"])
     if fam == "passthrough":
         return passthrough_cases(ctx, only=case["label"])
+    if fam == "big-type-churn":
+        return big_type_churn(ctx)
     if fam == "include":
         d = os.path.join(ctx.tmp, "c07r")
         os.makedirs(os.path.join(d, "sub"))
